@@ -72,7 +72,10 @@ def run_session_states(P):
     for (bi, si, kind, payload, ln) in rs.defs(flag):
         k = op_const(payload['a'][0]) if kind == 'rv' and payload['k'] == 'use' else None
         if k is None or not isinstance(k.get('v'), bool):
-            raise CheckError('C07.2: skip_runtime_loop is assigned a non-constant (unrecognised idiom)')
+            # assigned from a computed value (`provider.is_some()`): unknown from here on — both edges of every test of the
+            # flag are then explored, which is what the code can do
+            sets[bi] = '?'
+            continue
         sets[bi] = k['v']
     flag_switch = {}
     for (bi, on, ts, els) in switches(rs):
@@ -118,7 +121,7 @@ def run_session_states(P):
                 bad.append((b, cnt, fl))
             continue
         succ = list(rs.succs(b))
-        if b in flag_switch and fl is not None:
+        if b in flag_switch and fl is not None and fl != '?':
             f_t, t_t, neg = flag_switch[b]
             val = (not fl) if neg else fl
             succ = [t_t if val else f_t]
@@ -137,7 +140,7 @@ def run_session_states(P):
         if t['k'] == 'ret':
             return []
         succ = list(rs.succs(b))
-        if b in flag_switch and fl is not None:
+        if b in flag_switch and fl is not None and fl != '?':
             f_t, t_t, neg = flag_switch[b]
             val = (not fl) if neg else fl
             succ = [t_t if val else f_t]
